@@ -1825,6 +1825,22 @@ func genEngineCases(seed int64, n int, mode string) []Case {
 			patches = []string{"@@\n" + p.meta + "@@\n-zzzNeverMatches(1)\n+zzz(2)\n\n" + desc + header + ic.meta + "@@\n" + ic.patchHead + body}
 			note += " scope"
 		}
+		if g.mode != "c09" && ic.meta != "" && len(patches) == 1 && patches[0] == patch && g.chance(0.35) {
+			// the same import written by two changes of one patch, its name a metavariable in one of them and an ordinary
+			// name in the other: what a change declares concerns that change only
+			literal := desc + header + p.meta + "@@\n" + ic.patchHead + body
+			if g.chance(0.5) {
+				patches = []string{literal + "\n" + patch}
+				note += " import-name-literal-then-metavar"
+			} else {
+				next := &pattern{kind: p.kind, frag: p.frag, holes: p.holes, minus: p.plus, meta: p.meta}
+				next.plus = g.derivePlus(next)
+				if next.plus != next.minus {
+					patches = []string{patch + "\n@@\n" + p.meta + "@@\n" + ic.patchHead + lineDiff(next.minus, next.plus)}
+					note += " import-name-metavar-then-literal"
+				}
+			}
+		}
 		var chain []string
 		if g.mode == "c09" && g.chance(0.35) {
 			// a concrete chain: change 2 spells out, without metavariables or elisions, the code that
